@@ -2,7 +2,7 @@
    Statements only; every proof is [exact <lemma of Proofs/QueueProofs.v>].
    The model is the code AFTER the repair of the key scheme (fix recorded in findings/C10.entries.json).
 
-   Histories: lists over  UOp (USubmit chain_id_ok batch) | UOp (UNext chain_id_ok) | URestart |
+   Histories (first part: one bound for the whole history; second part: a bound per process start): lists over  UOp (USubmit chain_id_ok batch) | UOp (UNext chain_id_ok) | URestart |
    UCrash op n  (the process dies inside op after n of its datastore writes became durable, then restarts;
    every operation has at most one write, so this is a crash at every write boundary);
    a submitted batch is UNil | UEmpty | UB contents (equal contents = equal ids, and may recur freely). *)
@@ -92,6 +92,95 @@ Theorem C10_submission_of_any_size_atomic_full : forall (enc : list tx -> batch)
 Proof. exact r_sized_submission_atomic. Qed.
 Print Assumptions C10_submission_of_any_size_atomic_full.
 
+(* ==== THE BOUND IS A PARAMETER OF EVERY PROCESS START ======================================================
+   Histories over  VOp op | VStart max | VCrash op n max : every restart and every recovery from a crash names the
+   maxQueueSize of the process it starts (the operator lowers / raises the bound, an upgrade from "unlimited": any
+   sequence of bounds, incl. bounds smaller than the number of batches pending at that moment).  [max0] is the bound
+   of the first process. *)
+
+(* THE PROPERTY across restarts with CHANGING bounds, at full strength: for ALL such histories every result of the code's
+   model is the plain FIFO's (a submission is judged by the bound of the process that receives it; a restart changes
+   NOTHING, whatever the old and the new bound), the in-memory queue is exactly the pending batches in acceptance order
+   and so are the durable records.  In particular nothing pending is left behind by a process start, and nothing
+   accepted later is handed out before it. *)
+Theorem C10_fifo_any_bounds_full : forall max0 h, v_fifo max0 h.
+Proof. exact v_fifo_full. Qed.
+Print Assumptions C10_fifo_any_bounds_full.
+
+(* ... and that specification means: accepted = handed out ++ pending (exactly once, in order), also with changing bounds *)
+Theorem C10_spec_any_bounds_is_exactly_once_fifo : forall max0 h,
+  sv_accepted max0 [] h = sv_delivered max0 [] h ++ sv_final max0 h.
+Proof. exact sv_exactly_once0. Qed.
+Print Assumptions C10_spec_any_bounds_is_exactly_once_fifo.
+
+(* A process start reloads EVERY durable record — it does not look at the old or the new bound — and continues the
+   sequence numbering above all of them (in every state, for every bound). *)
+Theorem C10_start_loads_everything_full : forall st m,
+  vr (fst (v_step st (VStart m))) = r_boot (db (core (vr st))) /\
+  mem (core (vr (fst (v_step st (VStart m))))) = db (core (vr st)) /\
+  db (core (vr (fst (v_step st (VStart m))))) = db (core (vr st)) /\
+  vmax (fst (v_step st (VStart m))) = m /\
+  (forall k, In k (keys (db (core (vr st)))) -> k < nseq (vr (fst (v_step st (VStart m))))).
+Proof. exact v_start_loads_everything. Qed.
+Print Assumptions C10_start_loads_everything_full.
+
+Theorem C10_crash_recovery_loads_everything_full : forall st o n m,
+  exists d, vr (fst (v_step st (VCrash o n m))) = r_boot d /\
+    d = apply_ws (db (core (vr st))) (firstn n (snd (step_mem (vmax st) (mem (core (vr st))) (key_op (nseq (vr st)) o)))) /\
+    vmax (fst (v_step st (VCrash o n m))) = m.
+Proof. exact v_crash_loads_everything. Qed.
+Print Assumptions C10_crash_recovery_loads_everything_full.
+
+(* Admission enforces the bound of the running process: an accepted submission found fewer than [max] batches queued;
+   a queue that holds [max] or more (e.g. reloaded by a process with a smaller bound) refuses, without a trace. *)
+Theorem C10_accepted_below_current_bound_full : forall max rst ok s,
+  0 < max -> snd (r_step max rst (UOp (USubmit ok s))) = Some ROk -> s <> UNil -> s <> UEmpty ->
+  N.of_nat (length (mem (core rst))) < max.
+Proof. exact r_accept_below_bound. Qed.
+Print Assumptions C10_accepted_below_current_bound_full.
+
+Theorem C10_over_bound_refuses_full : forall max rst b,
+  0 < max -> max <= N.of_nat (length (mem (core rst))) ->
+  r_step max rst (UOp (USubmit true (UB b))) = (rst, Some RFull) /\ r_wlog max rst [UOp (USubmit true (UB b))] = [].
+Proof. exact r_over_bound_refuses. Qed.
+Print Assumptions C10_over_bound_refuses_full.
+
+(* The bound across process starts: the queue of a process with a positive bound never exceeds the larger of that
+   bound and the number of batches its start reloaded; the durable records are exactly as many as the queue. *)
+Theorem C10_bound_any_bounds_full : forall max0 h,
+  0 < vmax (v_final max0 h) ->
+  N.of_nat (length (mem (core (vr (v_final max0 h))))) <= N.max (vmax (v_final max0 h)) (vload (v_final max0 h)) /\
+  length (db (core (vr (v_final max0 h)))) = length (mem (core (vr (v_final max0 h)))).
+Proof. exact v_bound_full. Qed.
+Print Assumptions C10_bound_any_bounds_full.
+
+(* Histories whose process starts all use ONE bound are exactly the histories of the theorems above ([r_run]). *)
+Theorem C10_one_bound_is_an_instance_full : forall max h,
+  v_outputs max (map (v_of max) h) = r_outputs max h /\ vr (v_final max (map (v_of max) h)) = r_final max h.
+Proof. exact v_const_outputs. Qed.
+Print Assumptions C10_one_bound_is_an_instance_full.
+
+(* non-vacuity: five batches accepted by an unlimited process; restart with bound 3 (smaller than the five pending):
+   all five are reloaded, a submission is refused (5 >= 3) until three were handed out, the batch accepted then (6) is
+   handed out after the older 4 and 5 and gets a sequence number above theirs; a crash inside a hand-out whose delete
+   survived, recovered by a process with bound 1 (two pending: refuses), and a restart with an unlimited bound *)
+Definition ex_vhistory : list vitem :=
+  [ VOp (USubmit true (UB 1)); VOp (USubmit true (UB 2)); VOp (USubmit true (UB 3)); VOp (USubmit true (UB 4));
+    VOp (USubmit true (UB 5)); VStart 3; VOp (USubmit true (UB 6)); VOp (UNext true); VOp (UNext true);
+    VOp (USubmit true (UB 6)); VOp (UNext true); VOp (USubmit true (UB 6)); VCrash (UNext true) 1 1;
+    VOp (USubmit true (UB 8)); VOp (UNext true); VStart 0; VOp (USubmit true (UB 7)); VOp (UNext true);
+    VOp (UNext true); VOp (UNext true) ].
+Example ex_voutputs :
+  v_outputs 0 ex_vhistory =
+  [ Some ROk; Some ROk; Some ROk; Some ROk; Some ROk; None; Some RFull; Some (RBatch 1); Some (RBatch 2);
+    Some RFull; Some (RBatch 3); Some ROk; None; Some RFull; Some (RBatch 5); None; Some ROk; Some (RBatch 6);
+    Some (RBatch 7); Some REmpty ] /\
+  v_wlog (v_st0 0) ex_vhistory =
+  [ WPut 0 1; WPut 1 2; WPut 2 3; WPut 3 4; WPut 4 5; WDel 0; WDel 1; WDel 2; WPut 5 6; WDel 3; WDel 4;
+    WPut 6 7; WDel 5; WDel 6 ] /\
+  sv_accepted 0 [] ex_vhistory = [1; 2; 3; 4; 5; 6; 7] /\ sv_delivered 0 [] ex_vhistory = [1; 2; 3; 4; 5; 6; 7].
+Proof. vm_compute. repeat split; reflexivity. Qed.
+
 (* ---- non-vacuity: a concrete history -------------------------------------------------------------------- *)
 (* bound 3: identical contents pending together (7, 7), a restart with three pending, a full rejection, a
    foreign chain id, empty submissions, a crash that loses a submission, one that keeps it, a crash that
@@ -171,3 +260,18 @@ Theorem C10_translated_code_is_fifo_full : forall me max h,
     map snd (db (core rst)) = s_final max h.
 Proof. exact GoLiteQueueRefine.go_run_fifo. Qed.
 Print Assumptions C10_translated_code_is_fifo_full.
+
+(* ... and with a bound per process start: every operation executed by the translated code under the bound of the
+   process it runs in (the maxQueueSize field of the translated queue object) *)
+Theorem C10_translated_code_refines_model_any_bounds_full : forall me h st,
+  GoLiteQueueRefine.go_vrun me st h = Some (v_run st h).
+Proof. exact GoLiteQueueRefine.go_vrun_is_v_run. Qed.
+Print Assumptions C10_translated_code_refines_model_any_bounds_full.
+
+Theorem C10_translated_code_is_fifo_any_bounds_full : forall me max0 h,
+  exists st outs, GoLiteQueueRefine.go_vrun me (v_st0 max0) h = Some (st, outs) /\
+    outs = sv_outputs max0 h /\
+    map snd (mem (core (vr st))) = sv_final max0 h /\
+    map snd (db (core (vr st))) = sv_final max0 h.
+Proof. exact GoLiteQueueRefine.go_vrun_fifo. Qed.
+Print Assumptions C10_translated_code_is_fifo_any_bounds_full.
